@@ -98,6 +98,12 @@ func NewRecoverRequest(info *RecoverRequestInfo) ([]byte, error) {
 		return nil, err
 	}
 
+	// nor may the key that signs this request come back as the next update key
+	err = validateCommitment(info.RecoveryKey, info.MultihashCode, info.UpdateCommitment)
+	if err != nil {
+		return nil, err
+	}
+
 	signModel, err := signutil.SignModel(signedDataModel, info.Signer)
 	if err != nil {
 		return nil, err
